@@ -60,8 +60,11 @@ def load_plugins(config: 'ConfigService', custom=None) -> List['Plugin']:
     """
     if custom is None:
         custom = []
+    elif isinstance(custom, str):
+        custom = [custom]
     loaded = []
-    for plugin in __plugin_generator(DEEP_PLUGINS + custom):
+    # the configured names can be any sequence (a tuple as well as a list)
+    for plugin in __plugin_generator(DEEP_PLUGINS + list(custom)):
         try:
             plugin_instance = plugin(config=config)
             if not plugin_instance.is_active():
